@@ -11,6 +11,7 @@ package main
 
 import (
 	"go/ast"
+	"go/types"
 	"math/big"
 )
 
@@ -20,7 +21,26 @@ type derParts struct {
 	dlen *Term
 }
 
+// nonNil: a nil slice is the empty byte string (over a dummy array; every DER predicate checks lengths first).
+func (env *SpecEnv) nonNil(s *SliceVal) *SliceVal {
+	if s.reg != nil {
+		return s
+	}
+	if env.e.nilBytes == nil {
+		r := env.e.newRegion("nil-bytes", types.Typ[types.Uint8], false)
+		r.dyn = true
+		r.dynLen = mkInt64(0)
+		env.e.nilBytes = r
+	}
+	r := env.e.nilBytes
+	if _, ok := env.state().mem.cells[pathKey(r.id, nil)]; !ok {
+		env.state().mem.cells[pathKey(r.id, nil)] = &Term{Op: "var", Sort: SArr, Name: "nil-bytes.arr", Lo: big0, Hi: big.NewInt(255)}
+	}
+	return &SliceVal{reg: r, off: mkInt64(0), length: mkInt64(0), capacity: mkInt64(0), elem: types.Typ[types.Uint8], backingN: -1}
+}
+
 func (env *SpecEnv) derParse(s *SliceVal) derParts {
+	s = env.nonNil(s)
 	at := func(i int64) *Term {
 		return env.state().sub(env.e.sliceElem(env.state(), s, mkInt64(i)))
 	}
@@ -64,17 +84,20 @@ func (env *SpecEnv) derOK(s *SliceVal, tag *Term) *Term {
 }
 
 func (env *SpecEnv) derContent(s *SliceVal) *SliceVal {
+	s = env.nonNil(s)
 	p := env.derParse(s)
 	return &SliceVal{reg: s.reg, path: s.path, off: mkAdd(s.off, p.hdr), length: p.dlen, capacity: mkSub(s.capacity, p.hdr), elem: s.elem, backingN: s.backingN}
 }
 
 func (env *SpecEnv) derRest(s *SliceVal) *SliceVal {
+	s = env.nonNil(s)
 	p := env.derParse(s)
 	adv := mkAdd(p.hdr, p.dlen)
 	return &SliceVal{reg: s.reg, path: s.path, off: mkAdd(s.off, adv), length: mkSub(s.length, adv), capacity: mkSub(s.capacity, adv), elem: s.elem, backingN: s.backingN}
 }
 
 func (env *SpecEnv) derInt(s *SliceVal) *Term {
+	s = env.nonNil(s)
 	ok := env.derOK(s, mkInt64(2))
 	cs := env.derContent(s)
 	at := func(i int64) *Term {
@@ -86,6 +109,7 @@ func (env *SpecEnv) derInt(s *SliceVal) *Term {
 }
 
 func (env *SpecEnv) derIntMag(s *SliceVal) *SliceVal {
+	s = env.nonNil(s)
 	cs := env.derContent(s)
 	first := env.state().sub(env.e.sliceElem(env.state(), cs, mkInt64(0)))
 	strip := mkIte(mkAnd(mkLt(mkInt64(1), cs.length), mkEq(first, mkInt64(0))), mkInt64(1), mkInt64(0))
@@ -163,6 +187,7 @@ func (env *SpecEnv) os2ipv(sl *SliceVal) *Term {
 // ---- BIT STRING (X.690 8.6 / 11.2: DER requires unused bits to be zero) and OBJECT IDENTIFIER ------
 
 func (env *SpecEnv) derBits(s *SliceVal) *Term {
+	s = env.nonNil(s)
 	ok := env.derOK(s, mkInt64(3))
 	cs := env.derContent(s)
 	at := func(i *Term) *Term { return env.state().sub(env.e.sliceElem(env.state(), cs, i)) }
@@ -180,6 +205,7 @@ func (env *SpecEnv) derBits(s *SliceVal) *Term {
 }
 
 func (env *SpecEnv) derBitsBytes(s *SliceVal) *SliceVal {
+	s = env.nonNil(s)
 	cs := env.derContent(s)
 	return &SliceVal{reg: cs.reg, path: cs.path, off: mkAdd(cs.off, mkInt64(1)), length: mkSub(cs.length, mkInt64(1)), capacity: mkSub(cs.capacity, mkInt64(1)), elem: cs.elem, backingN: cs.backingN}
 }
